@@ -543,6 +543,33 @@ def gen_table(rng, quick, n=None):
         else:
             ra, dec = cra, cdec if not polar else 90.0
         rows.append([float(ra), float(dec)])
+    # adversarial for the undefined-coordinate guard: healpy maps an infinite longitude to some
+    # (garbage) pixel instead of raising; put a circle there so that a weakened guard in
+    # sky_within ("any NaN" instead of "not all finite") shows up as a row treated as inside
+    if not polar:
+        infrows = [(ra, dec) for ra, dec in rows if math.isinf(ra) and math.isfinite(dec)][:2]
+        if infrows:
+            # computed in a child process: healpy may crash on non-finite input
+            code = ("import healpy as hp, math, json, sys\n"
+                    "out=[]\n"
+                    "for ra,dec in json.loads(sys.argv[1]):\n"
+                    "    ra=float(ra)\n"
+                    "    pix=hp.ang2pix(2**%d, math.pi/2-math.radians(dec), math.radians(ra), nest=True)\n"
+                    "    th,ph=hp.pix2ang(2**%d,int(pix),nest=True)\n"
+                    "    out.append([math.degrees(ph), 90.0-math.degrees(th), 3.0])\n"
+                    "print(json.dumps(out))\n" % (depth, depth))
+            import json as _json
+            import subprocess as _sp
+            import sys as _sys
+            try:
+                arg = _json.dumps([[('inf' if ra > 0 else '-inf'), dec] for ra, dec in infrows])
+                r = _sp.run([_sys.executable, '-c', code, arg], capture_output=True, text=True, timeout=60)
+                if r.returncode == 0:
+                    for cc in _json.loads(r.stdout.strip().splitlines()[-1]):
+                        if all(math.isfinite(v) for v in cc):
+                            circles.append([float(v) for v in cc])
+            except Exception:
+                pass
     names = rng.choice([['ra', 'dec'], ['ra', 'dec'], ['RAJ2000', 'DEJ2000'], ['lon', 'lat'], ['dec', 'ra']])
     c = dict(kind='table', region=dict(depth=depth, circles=circles, polys=[]), coords=rows, names=names,
              negate=rng.random() < 0.5, unit=rng.choice([None, None, 'deg']), f32=rng.random() < 0.1,
